@@ -858,7 +858,9 @@ class World:
         self.abs_ticks[i] += 1
         if self.abs_ticks[i] > self.round:
             self.round = self.abs_ticks[i]
-        t = T0 + TICK * self.abs_ticks[i]
+        # ticks land in the middle of a 5 s slot: durations compared with thresholds that are multiples
+        # of 5 s are then never within an epsilon of the threshold (see also _restart)
+        t = T0 + TICK * self.abs_ticks[i] + 2.5
         if self.clock_t < t:
             self.clock_t = t
         s = self.sups[i]
@@ -893,6 +895,7 @@ class World:
     def _restart(self, i):
         old = self.sups[i]
         assert not old.alive
+        self.clock_t += 1.0   # the new start date is 1 s off the tick grid (thresholds stay unambiguous)
         new = Sup(self, i)
         new.incarnation = old.incarnation + 1
         self.sups[i] = new
